@@ -151,6 +151,15 @@ Definition set_meta (n : node) (m : meta) : node :=
   | NSym l _ => NSym l m
   end.
 
+(* baseNode.mayChown (chown_ok / chgrp_ok): an administrator; the owner of the node giving it its own or the node's
+   group and leaving the owner; anybody leaving both as they are *)
+Definition chown_ok (m : meta) (u : user) (uid gid : Z) : bool :=
+  us_admin u
+  || (Z.eqb uid (-1) && Z.eqb gid (-1))
+  || (Z.eqb (m_uid m) (us_uid u)
+      && (Z.eqb uid (-1) || Z.eqb uid (m_uid m))
+      && (Z.eqb gid (-1) || Z.eqb gid (m_gid m) || Z.eqb gid (us_gid u))).
+
 (* node.setOwner: the set-id bits of a node that is not a directory are cleared *)
 Definition chown_meta (n : node) (u : user) (uid gid : Z) : meta :=
   match n with
@@ -588,8 +597,8 @@ Definition rename (s : fsys) (v : view) (oldpath newpath : str) : fsys * res :=
              let same := str_eqb (pi_path (sr_pi ro)) (pi_path (sr_pi rn))
                          || match sr_child rn with Some nc => Nat.eqb nc oc | None => false end in
              let ndir := match sr_child rn with Some nc => node_is_dir h nc | None => false end in
-             (* decided before any permission check: a directory onto a directory (as os.Rename), a file or a
-                symbolic link onto itself or onto another hard link of itself (as rename(2)) *)
+             (* decided before any permission check: a directory onto a directory (as os.Rename), a directory into
+                itself, a file or a symbolic link onto itself or onto another hard link of itself (as rename(2)) *)
              let early : option res :=
                match get h oc with
                | Some (NDir _ _) =>
@@ -598,6 +607,10 @@ Definition rename (s : fsys) (v : view) (oldpath newpath : str) : fsys * res :=
                               && negb (str_eqb oldpath newpath)
                            then ROk
                            else RFail (if win v then EW_AccessDenied else sr_err rn))
+                   (* the root directory, or a directory moved into itself (as rename(2): before the permissions) *)
+                   else if Nat.eqb oc op || Nat.eqb oc np
+                           || is_prefix (pi_path (sr_pi ro) ++ [sepc (v_os v)]) (pi_path (sr_pi rn))
+                   then Some (RFail EInvalidArgument)
                    else None
                | Some _ => if same then Some ROk else None
                | None => None
@@ -606,17 +619,14 @@ Definition rename (s : fsys) (v : view) (oldpath newpath : str) : fsys * res :=
              | Some r => (s, r)
              | None =>
              if negb (perm_on h op OpenWrite (v_user v)) then (s, RFail EPermDenied)
-             else if negb (Nat.eqb oc op) && sticky_refuses h op oc (v_user v) then (s, RFail EOpNotPermitted)
+             else if sticky_refuses h op oc (v_user v) then (s, RFail EOpNotPermitted)
              else if negb (Nat.eqb np op) && negb (perm_on h np OpenWrite (v_user v)) then (s, RFail EPermDenied)
              else
                let move (h0 : heap) :=
                  (with_heap s (remove_child (add_child h0 np (pi_part (sr_pi rn)) oc) op (pi_part (sr_pi ro))), ROk) in
                match get h oc with
                | Some (NDir _ mo) =>
-                   if Nat.eqb oc op
-                      || is_prefix (pi_path (sr_pi ro) ++ [sepc (v_os v)]) (pi_path (sr_pi rn))
-                   then (s, RFail EInvalidArgument)
-                   else if negb (is_not_exist (sr_err rn))
+                   if negb (is_not_exist (sr_err rn))
                    then (s, RFail (if win v then EW_AccessDenied else ENotADirectory))
                    (* a directory moved to another directory: write permission on the directory itself *)
                    else if negb (Nat.eqb np op) && negb (us_admin (v_user v))
@@ -725,7 +735,7 @@ Definition chmod (s : fsys) (v : view) (name : str) (mode : N) : fsys * res :=
 
 (* Chown / Lchown, memfs.go:128, 299 *)
 Definition chown_gen (slm : slmode) (s : fsys) (v : view) (name : str) (uid gid : Z) : fsys * res :=
-  if (v_idm v && negb (us_admin (v_user v))) || win v then (s, RFail EOpNotPermitted)
+  if win v then (s, RFail EOpNotPermitted)
   else
     let r := search_node s v name slm in
     match sr_child r with
@@ -733,7 +743,9 @@ Definition chown_gen (slm : slmode) (s : fsys) (v : view) (name : str) (uid gid 
     | Some c =>
         if negb (is_file_exists (sr_err r)) then (s, RFail (sr_err r))
         else match get (f_heap s) c with
-             | Some n => (with_heap s (upd (f_heap s) c (set_meta n (chown_meta n (v_user v) uid gid))), ROk)
+             | Some n =>
+                 if v_idm v && negb (chown_ok (node_meta n) (v_user v) uid gid) then (s, RFail EOpNotPermitted)
+                 else (with_heap s (upd (f_heap s) c (set_meta n (chown_meta n (v_user v) uid gid))), ROk)
              | None => (s, RPanic)
              end
     end.
